@@ -338,3 +338,88 @@ def run_pairs(cases):
     mo = F.run_model(3, [enc_case(c) for c in cases])
     io = F.run_impl('hsm', 'impl_hsm', cases)
     return mo, io
+
+
+# ------------------------------------------------------------------ HierarchicalAsyncMachine with suspending callbacks
+def trim_lists(case):
+    """at most one callback per list and one check per transition: then the gathered stages of the async engine
+    cannot reorder anything and the synchronous model predicts the exact completion order"""
+    m = case['machine']
+
+    def trim_ts(evs):
+        for e, ts in evs:
+            for t in ts:
+                for key in ('prepare', 'before', 'after'):
+                    t[key] = t[key][:1]
+                t['conds'] = t['conds'][:1]
+    trim_ts(m['events'])
+    for key in ('prepare_event', 'before_sc', 'after_sc', 'finalize', 'on_exception', 'on_final'):
+        m[key] = m[key][:1]
+    for p, d in all_defs(m):
+        for key in ('enter', 'exit', 'onfinal'):
+            d[key] = d[key][:1]
+        trim_ts(d['events'])
+    return case
+
+
+def impl_hsm_async(case):
+    """HierarchicalAsyncMachine; every callback is a coroutine that suspends (cb % 3) times and only then logs
+    itself and answers: the observed order is the COMPLETION order of the callbacks"""
+    import asyncio
+    world = World(case['env'], case['machine']['send'])
+    world.state_of = state_forest
+    world.perform = lambda a: None
+    base = world.recorder
+
+    def arecorder(slot, cb, model_of_call=None):
+        inner = base(slot, cb, model_of_call)
+
+        async def rec(*args, **kwargs):
+            for _ in range(cb % 3):
+                await asyncio.sleep(0)
+            return inner(*args, **kwargs)
+        rec.__name__ = inner.__name__
+        return rec
+    world.recorder = arecorder
+    cname = case.get('cls', 'HierarchicalAsyncMachine')
+    machine, model = build_hsm(case, world, flat.get_class(cname), extra_kwargs=flat.class_kwargs(cname))
+    world.model_ids[id(model)] = case.get('model', 0)
+    world.current_model = model
+    init_cfg = state_forest(model)
+    out = []
+
+    async def run():
+        for k, e, a in case['history']:
+            tok = Token(a)
+            world.items = []
+            name = 'e%d' % e
+            try:
+                if k == 1:
+                    r = await model.may_trigger(name, tok, k=tok)
+                else:
+                    r = await model.trigger(name, tok, k=tok)
+                res = [0, bool(r)]
+            except BaseException as ex:  # noqa
+                res = [1, classify_exc(ex)]
+            out.append([world.items, res, state_forest(model)])
+    asyncio.run(run())
+    return [1, init_cfg, out]
+
+
+def async_stream(tag, seed, n, **genkw):
+    """model (synchronous Hsm engine) vs HierarchicalAsyncMachine / HierarchicalAsyncGraphMachine with suspending
+    callbacks; returns (cases, disagreements)"""
+    import framework as F
+    cases = []
+    for i in range(n):
+        rng = random.Random('%s-%d-%d' % (tag, seed, i))
+        c = trim_lists(gen_case(rng, **genkw))
+        c['history'] = [(0, e, a) for (k, e, a) in c['history']]
+        c['env'] = dict(default=c['env']['default'], bypos={p: r for p, r in c['env']['bypos'].items() if r[1] is None},
+                        bycb={k: r for k, r in c['env']['bycb'].items() if r[1] is None})
+        c['cls'] = ['HierarchicalAsyncMachine', 'HierarchicalAsyncGraphMachine'][i % 2]
+        cases.append(c)
+    mo = F.run_model(3, [enc_case(c) for c in cases])
+    io = F.run_impl('hsm', 'impl_hsm_async', cases)
+    bad = [(c, m, i) for c, m, i in zip(cases, mo, io) if m != i]
+    return cases, bad
